@@ -176,7 +176,7 @@ def instance(ctx, kind, ylo, yhi):
 
 def cases(tier):
     out = []
-    win = (1999, 2001) if tier == "quick" else (1896, 2104)
+    win = (1998, 2000) if tier == "quick" else (1801, 2000)
     combos = [("zone", "zone"), ("zone", "utc"), ("zone", "fixed"), ("utc", "zone"), ("fixed", "zone"),
               ("fixed", "fixed"), ("utc", "fixed")]
     for sk, tk in combos:
